@@ -1,0 +1,121 @@
+//go:build verif
+
+package db
+
+// Contracts for property C19 (document bodies come back exactly as written): stripping of the reserved
+// properties from a body map, and the number mode of the body decoder. Comment-only; read by /verif/engine.
+
+//@ props C19
+
+// A property the gateway strips from a body: non-empty, starts with '_' (95) and, when only the internal
+// ones are to be stripped, is one of the reserved names or carries the internal prefix "_sync_"
+// (_attachments and _deleted are therefore kept in that mode).
+//@ pred isSpecialProp(k string, internalOnly bool) bool
+//@   is k != "" && k[0] == 95 && (!internalOnly || c19HasPrefix(k, BodyInternalPrefix) || k == base.SyncPropertyName || k == BodyId || k == BodyRev ||
+//@        k == BodyCV || k == BodyRevisions || k == BodyExpiry || k == BodyPurged || k == BodyRemoved)
+
+//@ pred bodyUnchanged(b Body) bool
+//@   is forall k string :: {k in b} {b[k]} ((k in b) <==> old(k in b)) && b[k] == old(b[k])
+
+// Every key that is not special is kept with the same value, every special key is dropped, nothing is
+// added, the input map is not modified, and `found` says exactly whether something was dropped.
+//@ func stripSpecialProperties
+//@   safety on
+//@   ensures[input]    bodyUnchanged(b)
+//@   ensures[fresh]    sb == b || !old(allocated(now(sb)))
+//@   ensures[same]     !foundSpecialProps ==> sb == b
+//@   ensures[keys]     forall k string :: {k in sb} (k in sb) <==> (k in b) && !isSpecialProp(k, internalOnly)
+//@   ensures[values]   forall k string :: {sb[k]} (k in sb) ==> sb[k] == b[k]
+//@   ensures[found]    foundSpecialProps <==> (exists k string :: {k in b} (k in b) && isSpecialProp(k, internalOnly))
+//@   loop 1 invariant[input]  bodyUnchanged(b) && stripped != b
+//@   loop 1 invariant[keys]   forall k string :: {k in stripped} (k in stripped) <==> (k in #visited) && !isSpecialProp(k, internalOnly)
+//@   loop 1 invariant[values] forall k string :: {stripped[k]} (k in stripped) ==> stripped[k] == b[k]
+//@   loop 1 invariant[found]  foundSpecialProps <==> (exists k string :: {k in #visited} (k in #visited) && isSpecialProp(k, internalOnly))
+//@   loop 1 invariant[visited] forall k string :: {k in #visited} (k in #visited) ==> (k in b)
+
+//@ func stripAllSpecialProperties
+//@   ensures[input]    bodyUnchanged(b)
+//@   ensures[fresh]    result0 == b || !old(allocated(now(result0)))
+//@   ensures[same]     !result1 ==> result0 == b
+//@   ensures[keys]     forall k string :: {k in result0} (k in result0) <==> (k in b) && !isSpecialProp(k, false)
+//@   ensures[values]   forall k string :: {result0[k]} (k in result0) ==> result0[k] == b[k]
+//@   ensures[found]    result1 <==> (exists k string :: {k in b} (k in b) && isSpecialProp(k, false))
+
+// The body decoder is switched to number mode before it decodes (large integers survive as json.Number):
+// removing or reordering the UseNumber call fails the `number-mode` assertion.
+// Frame: Decode writes through the pointer it is given (stores a map into *b, or fills the map already there)
+// and advances the private reader/decoder it was built on; UseNumber flips the decoder's flag (ghost set).
+// (Frame report: FRAME-GAP -- the trusted extern of Decode says `modifies *` because its target is an `any`;
+// narrowing it to *b and the map's contents for THIS call is an assumption of this contract.)
+//@ func Body.Unmarshal
+//@   modifies *b, elems(*b), c19NumberMode
+//@   before[number-mode] call Decode#1 $0 in c19NumberMode
+//@   ensures[empty-rejected] len(data) == 0 ==> !isNilErr(result)
+
+//@ props C19 C09
+
+//@ func StripInternalProperties
+//@   ensures[input]    bodyUnchanged(b)
+//@   ensures[fresh]    result0 == b || !old(allocated(now(result0)))
+//@   ensures[same]     !result1 ==> result0 == b
+//@   ensures[keys]     forall k string :: {k in result0} (k in result0) <==> (k in b) && !isSpecialProp(k, true)
+//@   ensures[values]   forall k string :: {result0[k]} (k in result0) ==> result0[k] == b[k]
+//@   ensures[found]    result1 <==> (exists k string :: {k in b} (k in b) && isSpecialProp(k, true))
+
+// TRUSTED (standard library, go1.26 src/maps/maps.go): `for k, v := range src { dst[k] = v }`.
+//@ extern func maps.Copy[db.Body,db.Body,string,any]
+//@   requires dst != nil || len(src) == 0
+//@   modifies elems(dst)
+//@   ensures[keys]   forall k string :: {k in dst} (k in dst) <==> old(k in dst) || (k in src)
+//@   ensures[values] forall k string :: {dst[k]} dst[k] == ite(k in src, src[k], old(dst[k]))
+//@   ensures[src]    dst != src ==> (forall k string :: {k in src} {src[k]} ((k in src) <==> old(k in src)) && src[k] == old(src[k]))
+
+// (Frame report: FRAME-GAP "maps.Copy modifies not analysable" -- the only map written is `copied`, allocated in
+// this function, so no memory that existed before the call is modified; hence no modifies clause.)
+// A shallow copy has exactly the keys of the original, each with the same value; the original is not modified.
+//@ func Body.ShallowCopy
+//@   ensures[nil]     body == nil ==> result == nil
+//@   ensures[fresh]   body != nil ==> result != nil && !old(allocated(now(result)))
+//@   ensures[input]   bodyUnchanged(body)
+//@   ensures[keys]    forall k string :: {k in result} (k in result) <==> (k in body)
+//@   ensures[values]  forall k string :: {result[k]} (k in result) ==> result[k] == body[k]
+
+//@ props C19
+
+// ---- reserved properties a client must not set are rejected, not silently altered ----
+
+// Accepted bodies carry no non-null "_removed", no "_purged" and no key with the internal prefix "_sync_";
+// every rejection is a client error (404 for _removed, 400 otherwise); the body is never modified.
+//@ func validateNewBody
+//@   safety on
+//@   ensures[accepted]  isNilErr(result) <==> isNilErr(body[BodyRemoved]) && !(BodyPurged in body) && (forall k string :: {k in body} (k in body) ==> !c19HasPrefix(k, BodyInternalPrefix))
+//@   ensures[status]    !isNilErr(result) ==> httpStatus(result) == ite(!isNilErr(body[BodyRemoved]), 404, 400)
+//@   ensures[input]     bodyUnchanged(body)
+//@   loop 1 invariant[none] forall k string :: {k in #visited} (k in #visited) ==> !c19HasPrefix(k, BodyInternalPrefix)
+
+//@ func validateAPIDocUpdate
+//@   safety on
+//@   ensures[accepted]  isNilErr(result) <==> !(base.SyncPropertyName in body)
+//@   ensures[status]    !isNilErr(result) ==> httpStatus(result) == 400
+//@   ensures[input]     bodyUnchanged(body)
+
+// Imported bodies: a body that carries _id, _rev, _exp or _revisions is rejected (404), one with
+// "_purged": true cancels the import; an accepted body has none of them.
+//@ func validateImportBody
+//@   safety on
+//@   ensures[accepted]  isNilErr(result) ==> !(BodyId in body) && !(BodyRev in body) && !(BodyExpiry in body) && !(BodyRevisions in body)
+//@   ensures[purged]    dynType(body[BodyPurged]) == typeTag(bool) && unbox(body[BodyPurged], bool) ==> result == box(base.ErrImportCancelledPurged)
+//@   ensures[rejected]  !isNilErr(result) && result != box(base.ErrImportCancelledPurged) ==> httpStatus(result) == 404
+//@   ensures[input]     bodyUnchanged(body)
+//@   loop 1 invariant[idx]  #index < 4
+//@   loop 1 invariant[none] forall i int :: {disallowed[i]} 0 <= i && i <= #index ==> !(disallowed[i] in body)
+//@   loop 1 invariant[lit]  len(disallowed) == 4 && disallowed[0] == BodyId && disallowed[1] == BodyRev && disallowed[2] == BodyExpiry && disallowed[3] == BodyRevisions
+//@   loop 1 invariant[input] bodyUnchanged(body)
+
+// Documents read back from the bucket (body inline or in xattrs) are decoded in number mode as well.
+//@ func unmarshalDocument
+//@   modifies *
+//@   before[number-mode] call Decode#1 $0 in c19NumberMode
+
+//@ func NewDocument
+//@   ensures[fresh] result != nil && !old(allocated(result)) && result.ID == docid
